@@ -1,3 +1,15 @@
 from . import has_class
-CFG = {"harness": ["v1", "v2"], "functional": ["C06.universe", "C06.lookups"], "required_classes": ["universe", "lookup-sequences", "identity-closure"],
-       "rule": "wip", "manifest": {"text": "wip", "note": "wip"}}
+
+CFG = {
+    "harness": ["v1", "v2"],
+    "functional": ["C06.universe", "C06.lookups"],
+    "required_classes": ["universe", "lookup-sequences", "identity-closure"],
+    "rule": "the programs of C01 without generics; per program: (A) every object reachable from the universe's tables is the canonical map entry of its own name (shared builtin singletons under any of their keys), (B) none is an unresolved placeholder, (C) all go/types types that resolve (through the real tcNameToName/goNameToName hook) to one object are types.Identical, (D) 12 random Universe.Type lookups of existing, builtin and unknown names twice each return one object, compared with the model's get-or-create; builtin singletons shared across universes; non-trivial = input longer than 12 characters",
+    "exhaustive": [],
+    "modelled": "Universe.Type/Package.Type (get-or-create with builtin import), walkType's completeness short-circuits; pointer identity is object-name identity in the model (heap keyed by each object's own name, key map for the builtin aliases)",
+    "assumptions": ["non-generic declarations (C06's fragment)"],
+    "manifest": {
+        "text": "Coq theorems on the universe model: get-or-create is idempotent and never remaps an existing key (lookup stability), every walk and every lookup extends the universe monotonically (keys keep their objects, completed entries stay completed), builtin keys resolve to the reserved singleton names, uint8 and byte share one object while int8 does not; closure/no-placeholder and no-merge are decided on the real graphs each run (pointer-level assertions over every reachable object against go/types' Identical)",
+        "note": "partial: closure of the walk and 'identically spelled types are one object' are checked on the implementation's pointer graph on every generated program, the model theorems cover lookup stability and monotone extension; trusted: Coq kernel, extraction, OCaml driver, Go harness, hook TcNameToName/GoNameToName",
+    },
+}
